@@ -256,10 +256,46 @@ def rule_reject(ctx, R, F):
         if node['kind'] == 'cond' and node.get('owner') and node['owner']['k'] == 'If':
             if rejects(node['owner']['t']):
                 tests.append(node)
+    # which parameter combinations are rejected: truth table over the atoms of the rejecting tests (however they are grouped into if statements),
+    # decided by following the tests in program order
+    import itertools
+    from astq import bool_atoms, bool_eval
+    ordered = sorted(tests, key=lambda t_: (t_['stmt'].get('ln', 0), t_['id']))
     with astq.renaming({p['id']: 'P%d' % i for i, p in enumerate(f['params'])}), astq.nocasts():
-        conds = sorted(showv(t['stmt']) for t in tests)
-    exp_c = sorted(['(((P0 == nullptr) || (P1 == nullptr)) || (P2 < P0->outlen))', '(P0->f[0] != 0)'])
-    R.eq('blake2b_final parameter tests', '%s:%d' % (f['file'], f['line']), exp_c, [c.replace('== 0)', '== nullptr)') for c in conds])
+        atoms = []
+        for t_ in ordered:
+            bool_atoms(t_['stmt'], atoms)
+        # the four documented tests; a pointer test may appear as `!p` (atom p, inverted) or as the comparison `p == NULL` (atom true = rejected)
+        forms = {'S': {'P0': lambda a: not a, '(P0 == 0)': lambda a: a, '(P0 == nullptr)': lambda a: a, '(0 == P0)': lambda a: a},
+                 'out': {'P1': lambda a: not a, '(P1 == 0)': lambda a: a, '(P1 == nullptr)': lambda a: a, '(0 == P1)': lambda a: a},
+                 'outlen': {'(P2 < P0->outlen)': lambda a: a, '(P0->outlen > P2)': lambda a: a},
+                 'reused': {'P0->f[0]': lambda a: a}}
+        known = {a_: (what_, fn_) for what_, alts in forms.items() for a_, fn_ in alts.items()}
+        unknown = [a for a in atoms if a not in known]
+        if unknown:
+            raise AnalysisBroken('B2-REJECT: blake2b_final rejects on %s, which is not one of the documented parameter tests (S, out, outlen < S->outlen, S->f[0])' % unknown)
+        bad = []
+        names = sorted(forms)
+        for vals in itertools.product((False, True), repeat=len(names)):
+            concept = dict(zip(names, vals))           # e.g. {'S': True} = "S is NULL"
+            asg = {}
+            for a_ in atoms:
+                what_, fn_ = known[a_]
+                # atom value that makes fn_(atom) == concept[what_]
+                asg[a_] = True if fn_(True) == concept[what_] else False
+            want = any(vals)
+            got = False
+            for t_ in ordered:
+                v_ = bool_eval(t_['stmt'], asg)
+                if v_ is None:
+                    raise AnalysisBroken('B2-REJECT: test %s not decided by the parameter atoms' % showv(t_['stmt']))
+                if v_:
+                    got = True
+                    break
+            if got != want:
+                bad.append({'S == NULL': concept['S'], 'out == NULL': concept['out'], 'outlen < S->outlen': concept['outlen'], 'S->f[0] != 0': concept['reused'], 'rejected': got})
+    R.check(not bad, 'blake2b_final parameter tests', '%s:%d' % (f['file'], f['line']), expected='rejected exactly when S == NULL, out == NULL, outlen < S->outlen or S->f[0] != 0',
+            found='differs for %s' % bad[:2] if bad else 'as documented (%d tests, %d atoms)' % (len(tests), len(atoms)))
     for t in tests:
         tsucc = g.succ[t['id']][0]
         for sn, sc in sinks:
